@@ -30,6 +30,9 @@ def run(ctx: Ctx) -> None:
     puts = find_in(marm.body, "self.app_put")
     ok = len(puts) == 1 and norm(arg(puts[0], 0)) == "self.buffer.to_message()" and ("event.message_finished", True) in guard_atoms(puts[0], stop=marm)
     ctx.check("C10.R1", w, "message_finished -> app_put(buffer.to_message())", ok, "a completed message must be delivered from the accumulated buffer, and only when finished", puts[0] if puts else marm)
+    exts = find_in(marm.body, "self.buffer.extend")
+    ok = len(exts) == 1 and norm(arg(exts[0], 0)) == "event" and not [a for a in guard_atoms(exts[0], stop=marm) if "isinstance(event" not in a[0]]
+    ctx.check("C10.R1", w, "every Message event (also an empty one) is accumulated: buffer.extend(event) unconditionally", ok, "extend() is what creates the text/bytes buffer: skipping it for some fragments (e.g. empty ones) delivers a zero-length message as {'text': None, 'bytes': None}", exts[0] if exts else marm)
     pn = g.where(has_call("self.app_put"))
     ok = bool(pn) and g.must_pass(pn[0], [n.id for n in g.nodes if n.kind == "iter"] + [g.exit], has_call("self.buffer.clear"), skip_labels=("exc", "uncaught")) is None
     ctx.check("C10.R1", w, "put -> buffer.clear() before the next event", ok, "the buffer must be cleared after delivery or the next message is appended to the previous one", marm)
@@ -131,7 +134,16 @@ def run(ctx: Ctx) -> None:
     rs = [n for n in walk_local(aps) if isinstance(n, ast.Raise) and "TypeError" in norm(n)]
     ok = len(rs) == 1 and ("isinstance(message['text'], str)", False) in guard_atoms(rs[0])
     ctx.check("C10.R6", wa, "non-str text raises TypeError", ok, "a non-str text payload must be rejected (wsproto would send it as a binary frame)", rs[0] if rs else aps)
-    sw = [c for c in find_calls(aps, "self._send_wsproto_event") if norm(arg(c, 0)) == "event"]
+    built = set()
+    for c_ in bm + tm_:
+        par = getattr(c_, "_parent", None)
+        if isinstance(par, ast.Assign) and len(par.targets) == 1:
+            built.add(dotted(par.targets[0]))
+        elif isinstance(par, ast.AnnAssign):
+            built.add(dotted(par.target))
+        else:
+            built.add(None)
+    sw = [c for c in find_calls(aps, "self._send_wsproto_event") if ("message['type'] == 'websocket.send'", True) in guard_atoms(c) and len(built) == 1 and None not in built and norm(arg(c, 0)) in built]
     ok = len(sw) == 1 and ("message['type'] == 'websocket.send'", True) in guard_atoms(sw[0]) and isinstance(getattr(sw[0], "_parent", None), ast.Await)
     ctx.check("C10.R6", wa, "the built frame is sent", ok, "websocket.send must emit exactly one frame", sw[0] if sw else aps)
 
